@@ -40,7 +40,7 @@ theorem newFlagFalse_closedB : ClosedB (fun x => x.newFlag = false) where
     · rfl
     · exact h
   reap := fun _ _ h _ _ => h
-  flagRemoval := fun _ _ _ h => h
+  flagRemoval := fun _ _ _ _ _ h _ _ => h
   flushSinks := fun s h => by
     have := congrArg Core.newFlag (core_of_stripOut (flushSinks_strip s))
     exact this.trans h
